@@ -569,7 +569,9 @@ mod = catalogue.load(modname); fn = getattr(mod, fname)
 info = catalogue.decorator_info(fn); inner = info["inner"]; sig = inspect.signature(inner)
 args = {{}}; scal = {{}}; par2sym = {{}}
 for pname, p in sig.parameters.items():
-    spec = info["inputs"].get(pname); v = sp.Rational(vals.get(pname, "3/2")); scal[pname] = v
+    spec = info["inputs"].get(pname); v = sp.Rational(vals.get(pname, "3/2"))
+    if vals.get("__float__"): v = sp.Float(v, 30)        # probe points: double-like magnitudes, as a user would pass them (exact rationals make SymPy expand huge exact powers)
+    scal[pname] = v
     if spec is None: args[pname] = float(v); continue
     d = spec.dimension if isinstance(spec, DimensionSymbol) else spec
     args[pname] = Quantity(v, dimension=d.subs("angle", 1))
@@ -721,6 +723,7 @@ def run(ctx):
                 names = list((r.get("vals") or {}).keys())
                 for shift, scale in ((0, 1), (1, 10**8), (2, sp.Rational(1, 10**8))):      # ordinary, relativistic-size and tiny SI magnitudes
                     pt = {nm: str(scale * sp.Rational(3 + 2 * ((i + shift) % 5), 4 + i + shift)) for i, nm in enumerate(names)}
+                    pt["__float__"] = "1"
                     if ctx.probe(f"C02:{r['name']}", f"{r['name']}: the law fails at the concrete point {pt} (the solver's own model was spurious)", fmt(pt)):
                         break
     from checks import c02_vectors, c02_vecwrap, c02_fieldlaws, c02_seqlaws
